@@ -361,8 +361,9 @@ class Circuit:
             BeamSplitter(mode_1, mode_2, reflectivity, convention)
         )
         if isinstance(loss, Parameter) or loss > 0:
-            self.loss(mode_1, loss)
-            self.loss(mode_2, loss)
+            # Modes are already remapped, so add loss components directly
+            self.__circuit_spec.append(Loss(mode_1, loss))
+            self.__circuit_spec.append(Loss(mode_2, loss))
 
     def ps(self, mode: int, phi: float, loss: float = 0) -> None:
         """
@@ -383,7 +384,8 @@ class Circuit:
         check_loss(loss)
         self.__circuit_spec.append(PhaseShifter(mode, phi))
         if isinstance(loss, Parameter) or loss > 0:
-            self.loss(mode, loss)
+            # Mode is already remapped, so add loss component directly
+            self.__circuit_spec.append(Loss(mode, loss))
 
     def loss(self, mode: int, loss: float = 0) -> None:
         """
